@@ -86,8 +86,12 @@ def gen_doc(r, with_ext):
     return {"$schema": "http://json-schema.org/draft-07/schema#", "definitions": defs}
 
 
-def gen_options(r, front):
-    """Abstract options + their rendering for the builder (vgen settings), the CLI (argv) and the macro (tokens)."""
+GRID = [(v, pol) for v in ("1.2.3", "2.0.0", "*", "!") for pol in (None, "Generate", "Allow", "Deny")]
+
+
+def gen_options(r, front, grid=None):
+    """Abstract options + their rendering for the builder (vgen settings), the CLI (argv) and the macro (tokens).
+    grid = (crate version, unknown-crate policy): the first 16 cases of each front end cover the whole product."""
     o = {}
     o["struct_builder"] = r.random() < 0.5
     # path derives only through the CLI: the macro stringifies paths with spaces, which changes their sort
@@ -104,6 +108,10 @@ def gen_options(r, front):
     if r.random() < 0.3:
         o["crates"].append({"name": "unrelated-crate", "version": "0.1.0", "rename": None})
     o["unknown_crates"] = r.choice([None, "Generate", "Allow", "Deny"])
+    if grid is not None:
+        o["ext"] = ext = ext or "ext-crate9"
+        o["crates"] = [{"name": ext, "version": grid[0], "rename": r.choice([None, "renamed2"])}]
+        o["unknown_crates"] = grid[1]
     o["patches"], o["replacements"], o["conversions"] = [], [], []
     if front == "macro":
         if r.random() < 0.5:
@@ -296,7 +304,7 @@ def run(tier, seed, replay=None):
     # ---------------- CLI cases
     for i in range(n_cli):
         r = util.rng(seed, PROP, "cli", i)
-        o = gen_options(r, "cli")
+        o = gen_options(r, "cli", grid=GRID[i] if i < len(GRID) else None)
         doc = gen_doc(r, o["ext"])
         cid = "cli%04d" % i
         cases.append({"id": cid, "settings": builder_settings(o), "history": [{"op": "root", "schema": doc}],
@@ -304,7 +312,7 @@ def run(tier, seed, replay=None):
         meta[cid] = {"front": "cli", "o": o, "doc": doc, "out_mode": ["default", "file", "stdout"][i % 3]}
     for i in range(n_mac):
         r = util.rng(seed, PROP, "mac", i)
-        o = gen_options(r, "macro")
+        o = gen_options(r, "macro", grid=GRID[i] if i < len(GRID) else None)
         doc = gen_doc(r, o["ext"])
         cid = "mac%04d" % i
         cases.append({"id": cid, "settings": builder_settings(o), "history": [{"op": "root", "schema": doc}],
